@@ -180,19 +180,37 @@ def _tail_replace(stmts, make):
     return out
 
 
-def expand_helpers(model: Model, cls: ClassInfo, func: ast.FunctionDef, depth: int = 2, skip=("v_",)) -> ast.FunctionDef:
+def expand_module_helpers(model: Model, rel: str, func: ast.FunctionDef, depth: int = 2, skip=("v_",)) -> ast.FunctionDef:
+    """expand_helpers for a module-level function: calls `helper(args)` to small module-level functions of the same file are
+    read in place (`return _IsCompatiblePrimitive(left, right)`)."""
+    return expand_helpers(model, None, func, depth, skip, module_rel=rel)
+
+
+def expand_helpers(model: Model, cls: ClassInfo, func: ast.FunctionDef, depth: int = 2, skip=("v_",), module_rel: Optional[str] = None) -> ast.FunctionDef:
     """Copy of `func` in which statement-level calls `self.helper(args)` (also
     `return self.helper(args)` and `x = self.helper(args)` for helpers whose
     only return is the last statement) to small non-handler methods of the
     same class are replaced by the helper's body with parameters substituted."""
-    if depth <= 0 or not func.args.args:
+    if depth <= 0 or (not func.args.args and module_rel is None):
         return func
-    selfn = func.args.args[0].arg
+    selfn = func.args.args[0].arg if module_rel is None else "\0none"
     f2 = copy.deepcopy(func)
     inlined = set(getattr(func, "_nslsa_inlined", ()))
     caller_names = {n.id for n in ast.walk(func) if isinstance(n, ast.Name)} | {a.arg for a in func.args.args}
+    mod_funcs = model.file(module_rel).functions if module_rel is not None else {}
 
     def helper_of(call) -> Optional[ast.FunctionDef]:
+        if module_rel is not None:
+            if not (isinstance(call, ast.Call) and isinstance(call.func, ast.Name) and call.func.id in mod_funcs and not call.func.id.startswith(skip)):
+                return None
+            h = mod_funcs[call.func.id]
+            if h is func or h.name == func.name or len(h.body) > 25 or h.args.vararg or h.args.kwarg or h.decorator_list:
+                return None
+            rets = [n for n in walk_no_nested(h) if isinstance(n, ast.Return)]
+            if rets and not (len(rets) == 1 and h.body and h.body[-1] is rets[0]):
+                if not _all_tail(_guards_to_else(h.body)):
+                    return None
+            return h
         if not (isinstance(call, ast.Call) and isinstance(call.func, ast.Attribute) and isinstance(call.func.value, ast.Name) and call.func.value.id == selfn):
             return None
         name = call.func.attr
@@ -215,7 +233,7 @@ def expand_helpers(model: Model, cls: ClassInfo, func: ast.FunctionDef, depth: i
         return h
 
     def instantiate(h: ast.FunctionDef, call: ast.Call, keep=()):
-        static = any(unparse(d) == "staticmethod" for d in h.decorator_list)
+        static = any(unparse(d) == "staticmethod" for d in h.decorator_list) or module_rel is not None
         params = [a.arg for a in (h.args.args if static else h.args.args[1:])]
         env = {}
         for p, a in zip(params, call.args):
@@ -355,7 +373,7 @@ def expand_helpers(model: Model, cls: ClassInfo, func: ast.FunctionDef, depth: i
         ast.fix_missing_locations(f2)
     f2._nslsa_inlined = inlined
     if depth > 1:
-        return expand_helpers(model, cls, f2, depth - 1, skip) if changed else f2
+        return expand_helpers(model, cls, f2, depth - 1, skip, module_rel) if changed else f2
     return f2
 
 
